@@ -405,7 +405,9 @@ def depth_cases(rng, tier, lvline):
     for l, pair in enumerate(texts):
         for h in pair.split("/"):
             c = "sad %s %s %s %s" % (src, levels, tdepths, h)
-            cases.append(c); expect[c] = (lv[l][0], l)
+            td = [int(x) for x in tdepths.split(",")]
+            # a non-Group type present at several depths (asymmetric topology) has no text per level: MULTIPLE
+            cases.append(c); expect[c] = (lv[l][0], -2 if (lv[l][0] != T_GROUP and td[lv[l][0]] == -2) else l)
     gds = sorted(set(g for t, g in lv if t == T_GROUP)) + [0, 1, 7, UINT_MAX - 1, UINT_MAX]
     words = ["Group", "group", "Group%d" % UINT_MAX, "Group4294967296", "Machine", "PU", "Core", "L2", "L2Cache", "L1i", "L9", "NUMANode", "PCI", "OS[Net]", "OSDev",
              "Bridge", "HostBridge", "Misc", "MemCache", "Package", "Die", "nothing", "", "L", "gr", "pu:3"]
@@ -420,3 +422,33 @@ def depth_cases(rng, tier, lvline):
             cases.append("gtd %s %s %s %d %d %d" % (src, levels, tdepths, T_GROUP, g, asz))
         cases.append("gtd %s %s %s %d %d 48" % (src, levels, tdepths, rng.choice([0, 3, 5, 14, 16]), g))
     return cases, expect
+
+
+# ---------------------------------------------------------------------------
+# topologies with a post-load modification history (Groups inserted into existing Group levels, restrict,
+# distance grouping): "<source> | op | op ..."
+def history_cases(rng, tier):
+    """ops on synthetic topologies of N cores; a laminar family of core ranges inserted in random orders, so that
+    later Groups land in already existing Group levels at non-first positions"""
+    out = ["synthetic pack:2 core:8 pu:1 | g 3 0 3 | g 3 0 1 | g 3 8 11 | g 3 8 9"]       # two Group levels, the last Group joins the 2nd one
+    n = 14 if tier == "quick" else 150
+    for k in range(n):
+        if k % 3 == 0:
+            base, ncore, sizes = "pack:2 core:8 pu:1", 16, [2, 4]
+        elif k % 3 == 1:
+            base, ncore, sizes = "pack:1 core:16 pu:2", 16, [2, 4, 8]
+        else:
+            base, ncore, sizes = "group:2 pack:2 core:4 pu:1", 16, [2]
+        fam = [(a, a + sz - 1) for sz in sizes for a in range(0, ncore, sz)]
+        sub = rng.sample(fam, rng.randrange(3, min(len(fam), 9) + 1))
+        ops = ["g 3 %d %d%s" % (a, b, " 1" if rng.random() < 0.15 else "") for a, b in sub]
+        r = rng.random()
+        if r < 0.25:
+            mask = 0
+            for c in rng.sample(range(ncore), rng.randrange(ncore // 2, ncore)):
+                mask |= (3 << (2 * c)) if "pu:2" in base else (1 << c)
+            ops.insert(rng.randrange(1, len(ops) + 1), "r 0x%x %d" % (mask, rng.choice([0, 0, 1])))
+        elif r < 0.5:
+            ops.insert(rng.randrange(0, len(ops) + 1), "dg 3 %d" % rng.choice([2, 4]))
+        out.append("synthetic %s | %s" % (base, " | ".join(ops)))
+    return out
